@@ -5,6 +5,10 @@
  *   ret = 1 => *aggsig_len = 32*(n+1);  aggsig[32i..32i+32) = old r_i for i < n_before (untouched),
  *              = new_sigs64[64(i-n_before) .. +32) for n_before <= i < n   (ghost byte index);
  *   ret = 0 on well-formed arguments with enough room only if a public key object was invalid (illegal callback).
+ * Randomizer wiring (same run): one running hash from the HalfAgg/randomizer midstate; signature i contributes exactly
+ * r_i || be(x(pk_i)) || m_i at stream positions 64+96i.. (r_i from the old aggregate for i < n_before, from new_sigs64
+ * otherwise) - the same stream aggverify builds; z_i = digest (mod n) of a finalize at length 64+96(i+1); the product
+ * requested is s_i * z_i with s_i = new_sigs64[64(i-n_before)+32..] mod n, for every new i != 0 (none for i = 0).
  * The three loops are closed by the loop contracts in hooks/C17_halfagg_loops.diff. */
 #include "assumed_C17.h"
 #include "src/secp256k1.c"
@@ -14,7 +18,7 @@
 
 void h_inc_aggregate(void) {
     secp256k1_context ctx;
-    INPUT(size_t, nb); INPUT(size_t, nnew); INPUT(size_t, alen); INPUT(size_t, gb); INPUT(_Bool, oneshot);
+    INPUT(size_t, nb); INPUT(size_t, nnew); INPUT(size_t, alen); INPUT(size_t, gb); INPUT(uint64_t, wpos); INPUT(_Bool, oneshot);
     INPUT(_Bool, use_agg); INPUT(_Bool, use_len); INPUT(_Bool, use_pk); INPUT(_Bool, use_msgs); INPUT(_Bool, use_sigs);
     unsigned char *aggsig, *msgs, *sigs; secp256k1_xonly_pubkey *pks; size_t n, len; int ret, wrap, big, misuse, toosmall;
     if (oneshot) __CPROVER_assume(nb == 0);
@@ -24,10 +28,14 @@ void h_inc_aggregate(void) {
     pks = malloc((big || n == 0) ? 1 : n * sizeof(*pks)); msgs = malloc((big || n == 0) ? 1 : n * 32); sigs = malloc((big || nnew == 0) ? 1 : nnew * 64);
     __CPROVER_assume(pks != NULL && msgs != NULL && sigs != NULL);
     verif_ctx_init(&ctx); ctx.hash_ctx.fn_sha256_compression = secp256k1_sha256_transform;
-    HASHLOG_RESET(); g_we = -1; g_wpos = 0; verif_c17_bad = 0;
+    c17_init_n = 0; c17_mode = 1; c17_aggsig = aggsig; c17_msgs = msgs; c17_pks = pks; c17_sigs = sigs; c17_n = nnew; c17_nb = nb; g_gen_n = 0; c17_phase = 0;
+    verif_c17_xo_n = 0; verif_c17_fin_n = 0; verif_c17_bad = 0; verif_c17_rej = 0; verif_c17_whit = 0;
     toosmall = (W(alen) < 32 * (W(nb) + W(nnew) + 1));
     verif_c17_gb = gb; verif_c17_gb_exp = 0;
     if (!big && !wrap && !toosmall && gb < 32 * n) verif_c17_gb_exp = (gb / 32 < nb) ? aggsig[gb] : sigs[64 * (gb / 32 - nb) + gb % 32];
+    verif_c17_wpos = wpos; verif_c17_wexp = 0;
+    if (!big && !wrap && !toosmall && wpos >= 64 && wpos < 64 + 96 * (uint64_t)n) { size_t t = (wpos - 64) / 96, o = (wpos - 64) % 96;
+        verif_c17_wexp = o < 32 ? (t < nb ? aggsig[32 * t + o] : sigs[64 * (t - nb) + o]) : o < 64 ? pks[t].data[31 - (o - 32)] : msgs[32 * t + (o - 64)]; }
     len = alen;
 
     if (oneshot) ret = secp256k1_schnorrsig_aggregate(&ctx, use_agg ? aggsig : NULL, use_len ? &len : NULL, use_pk ? pks : NULL, use_msgs ? msgs : NULL, use_sigs ? sigs : NULL, nnew);
@@ -38,16 +46,18 @@ void h_inc_aggregate(void) {
     __CPROVER_assert(g_error == 0, "C17 inc_aggregate: error callback never invoked");
     if (wrap) __CPROVER_assert(ret == 0 && g_illegal == 1, "C17 inc_aggregate: n_before + n_new overflow reports illegal use and returns 0");
     misuse = !use_agg || !use_len || (!use_sigs && nnew != 0) || wrap || (!use_pk && n != 0) || (!use_msgs && n != 0);
-    if (misuse) { __CPROVER_assert(ret == 0 && g_illegal == 1 && len == alen && g_fin_n == 0 && g_h_fresh == 1, "C17 inc_aggregate: API misuse reports illegal use, returns 0, aggregates nothing"); if (wrap) REACH("inc_aggregate count overflow"); REACH("inc_aggregate API misuse"); return; }
-    if (toosmall) { __CPROVER_assert(ret == 0 && g_illegal == 0 && len == alen && g_h_fresh == 1, "C17 inc_aggregate: buffer smaller than 32*(n+1) returns 0 and touches nothing");
+    if (misuse) { __CPROVER_assert(ret == 0 && g_illegal == 1 && len == alen && verif_c17_fin_n == 0 && verif_c17_whit == 0 && c17_init_n == 0, "C17 inc_aggregate: API misuse reports illegal use, returns 0, aggregates nothing"); if (wrap) REACH("inc_aggregate count overflow"); REACH("inc_aggregate API misuse"); return; }
+    if (toosmall) { __CPROVER_assert(ret == 0 && g_illegal == 0 && len == alen && verif_c17_whit == 0 && c17_init_n == 0, "C17 inc_aggregate: buffer smaller than 32*(n+1) returns 0 and touches nothing");
         if (alen == 32 * n && n > 2) REACH("inc_aggregate buffer one slot short"); if (big) REACH("inc_aggregate huge count"); return; }
     if (ret == 1) {
         __CPROVER_assert(g_illegal == 0, "C17 inc_aggregate: success without callback");
         __CPROVER_assert(W(len) == 32 * (W(n) + 1), "C17 inc_aggregate: *aggsig_len = 32*(n+1) on success");
         if (gb < 32 * n) __CPROVER_assert(aggsig[gb] == verif_c17_gb_exp, "C17 inc_aggregate: old r's untouched, new r's copied to slots n_before..n-1");
+        __CPROVER_assert(verif_c17_bad == 0 && verif_c17_fin_n == nnew && c17_init_n == 1, "C17 inc_aggregate: one running hash, one randomizer per new signature from a finalize at length 64+96(i+1), products s_i*z_i (i != 0), hash bytes as specified");
+        if (wpos >= 64 && wpos < 64 + 96 * (uint64_t)n) __CPROVER_assert(verif_c17_whit, "C17 inc_aggregate: every position of r_i || pk_i || m_i, i < n, is written to the running hash");
         if (nb == 0 && nnew == 0) REACH("inc_aggregate empty");
         if (nb == 0 && nnew == 3 && gb == 40) REACH("aggregate one-shot n = 3");
-        if (nb == 1000 && nnew == 1000000 && gb == 32 * 1000 + 31 && alen == 32 * (NMAX + 1)) REACH("inc_aggregate 1000 + 10^6, oversized buffer");
+        if (nb == 1000 && nnew == 1000000 && gb == 32 * 1000 + 31 && wpos == 64 + 96 * 1000 + 3 && alen == 32 * (NMAX + 1)) REACH("inc_aggregate 1000 + 10^6, oversized buffer");
         if (nb == 5 && nnew == 0 && gb == 159) REACH("inc_aggregate nothing new");
     } else {
         __CPROVER_assert(g_illegal == 1, "C17 inc_aggregate: well-formed call with enough room fails only on an invalid public key object (illegal callback)");
